@@ -579,11 +579,16 @@ class Check(PropertyCheck):
                   "driven by Http1Connection.read_body) as an Incremental byte consumer, and of human.parse_size over the "
                   "regenerated SIZE_UNITS table — for ALL option values, expected sizes, wire bytes, segmentations, chunk lists "
                   "and callables (induction): over_limit_errors, buffer_bound_partial (+ buffer_bound_counterexample for the "
-                  "recorded finding), response_side_independent / request_side_independent / request_verdict_never_reaches_response / upload_unaffected_by_response_timing, writer_agrees_with_reader (for every "
+                  "recorded finding), response_side_independent / request_side_independent / request_verdict_never_reaches_response / upload_unaffected_by_response_timing, "
+                  "response_over_limit_errors_in_exchange, stream_starts_when_due / late_switch_when_due (when streaming is due it "
+                  "starts), writer_identity_exact / reader_inverts_writer / streamed_wire_exact (the HTTP/1 writers' body framing — "
+                  "transcribed and tied by the `frame` op to the real Http1Client.send / Http1Server.send — read back by the chunked "
+                  "reader is one complete message carrying exactly the transformed bytes), writer_agrees_with_reader (for every "
                   "Transfer-Encoding value the reader accepts the writers' chunk-framing test gives the reader's answer; over C01's parseTE) "
                   "(one exchange: the request-side verdict, flags and buffers never take part in the response side), streamed_exact, relayed_exact_any_chunking, relayed_exact_events, stored_iff_option, "
                   "unstored_stream_holds_nothing, reader_lawful / reader_segmentation_independent, wire_events_carry_body, "
-                  "wire_body_segmentation_independent, wire_relay_segmentation_independent (the same wire bytes in any two "
+                  "wire_body_segmentation_independent, wire_relay_segmentation_independent, wireRun_is_run_over_segEvents / "
+                  "wireRun_segmentation_independent (the tied receive path itself: the same wire bytes in any two "
                   "segmentations deliver the same bytes to the peer), parseSize laws. The model is tied to the real "
                   "HttpLayer/HttpStream/Http1 stack run through world.py: error hook, client error, the exact chunk list the peer "
                   "receives, the buffer length after every delivery, the stored content and the readers' verdict are compared for "
@@ -595,8 +600,8 @@ class Check(PropertyCheck):
                   "body readers are modelled as byte automata — a reformulation of h11's buffer-based readers (extract-at-most / "
                   "extract-next-line), validated against the real h11 0.16 readers under random segmentation, not derived from "
                   "their source; a non-empty HTTP/1 trailer section (NotImplementedError in mitmproxy) is outside the model and "
-                  "excluded from comparison. HTTP/1 re-framing towards the peer is checked by an independent strict chunked "
-                  "reader in the harness, not proved; HTTP/2 peers are real hyper-h2 state machines (plaintext, alpn set in the server_connected hook), their framing and "
+                  "excluded from comparison. HTTP/1 re-framing towards the peer is now proved against the reader model (pieces < 16^20 bytes) "
+                  "and additionally checked by an independent strict chunked reader in the harness; HTTP/2 peers are real hyper-h2 state machines (plaintext, alpn set in the server_connected hook), their framing and "
                   "flow control are the library's, HTTP/3 is not driven; flows whose "
                   "response an addon sets before the body arrives are outside the model. wire_relay_segmentation_independent "
                   "is stated for runs that end `done` without a callable (with a late switch the outcome abort-vs-stream itself "
